@@ -177,6 +177,9 @@ type metaReader interface {
 }
 
 func (v *vetoPlugin) verdict(stage string, ctx erpc.ReadCtx) *erpc.Status {
+	if string(ctx.PeekMeta("Ppanic")) == stage {
+		panic("plugin " + v.name + " panics at " + stage)
+	}
 	if string(ctx.PeekMeta("Veto")) != stage {
 		return nil
 	}
@@ -204,6 +207,21 @@ func (v *vetoPlugin) PreReadPushBody(ctx erpc.ReadCtx) *erpc.Status {
 }
 func (v *vetoPlugin) PostReadPushBody(ctx erpc.ReadCtx) *erpc.Status {
 	return v.verdict("PostReadPushBody", ctx)
+}
+
+// write-side stages: a veto there is ignored by the framework, a panic must not
+// change how often the call is answered
+func (v *vetoPlugin) PreWriteReply(ctx erpc.WriteCtx) *erpc.Status {
+	if rc, ok := ctx.(erpc.ReadCtx); ok && string(rc.PeekMeta("Ppanic")) == "PreWriteReply" {
+		panic("plugin " + v.name + " panics at PreWriteReply")
+	}
+	return nil
+}
+func (v *vetoPlugin) PostWriteReply(ctx erpc.WriteCtx) *erpc.Status {
+	if rc, ok := ctx.(erpc.ReadCtx); ok && string(rc.PeekMeta("Ppanic")) == "PostWriteReply" {
+		panic("plugin " + v.name + " panics at PostWriteReply")
+	}
+	return nil
 }
 
 var (
